@@ -173,10 +173,10 @@ def notJoined (c : Nat) (r : Req) : List Delivery × Outcome :=
 
 def Server.handleReceipt (cfg : Cfg) (srv : Server) (c rid : Nat) (receipt hash sig : Bytes) : SRes :=
   if receipt.length == 0 || hash.length == 0 || sig.length == 0 then
-    (srv, [(c, .error rid ecBadRequest)], .connError)
+    (srv, [(c, .error rid ecBadRequest)], .ok)
   else if srv.receipts.length < cfg.rcap then
     ({ srv with receipts := srv.receipts ++ [⟨receipt, hash, sig⟩] }, [(c, .receiptResp rid)], .ok)
-  else (srv, [(c, .error rid ecTooBusy)], .connError)
+  else (srv, [(c, .error rid ecTooBusy)], .ok)
 
 /-- `handleMessage` -/
 def Server.handleReq (cfg : Cfg) (srv : Server) (c : Nat) (r : Req) (hint : Nat) : SRes :=
